@@ -41,6 +41,21 @@ CHECKS = {
  "C27": ("structmon", "exploration", "pairwise law checking of the key encoder over boundary-exhaustive pools and seeded random pairs",
          "Held on the sampled + boundary-exhaustive domain apart from the listed known finding (lists/maps): order, equality and prefix freedom of encode_ordered_value.",
          "'All integers/floats' is sampled plus boundary-exhaustive; NaN pairs are not judged.", "DESIGN.md §4.6 C27"),
+ "C03": ("concmon", "exploration", "schedule-point parking (writer parked x reader action, reader parked x writer operation) + free-running stress with lock noise; snapshot-prefix and self-equality oracle over dumps of uniquely marked commits",
+         "Held on the explored schedules apart from the listed known findings: at every schedule point of commit, compaction and snapshot construction the partner ran (or waited) and the snapshot equalled the state before or after; in stress every snapshot equalled the content after j commits, acked-before-call <= j <= started-before-return, and long-lived snapshots were re-read across compactions.",
+         "Real threads; interleavings inside std locks are not controlled; workload writes are append-only markers.", "DESIGN.md §4.3 C03"),
+ "C09": ("concmon", "exploration", "real-thread stress of ndb_execute_write on few keys + parked statement before the writer lock; conservation oracle (acknowledged increments == final value, one node per merged key)",
+         "Held on the explored schedules: N threads of increments/conditional creates through the C API on 1-3 counters; every acknowledged increment is in the final value and every merged key has one node; one statement parked before its writer-lock acquisition while another completes.",
+         "Statements that returned an error are excluded; all threads joined before the final read.", "DESIGN.md §4.3 C09"),
+ "C10": ("concmon", "exploration", "second open attempted from another thread and another process in four first-handle states; outcome oracle (refused / waited / opened) + sequential reopen",
+         "Held on the explored cases: while a first handle is open (just opened, after commit, after compaction, with an open write transaction) a second open from a thread and from a child process was refused or waited; sequential close/open kept working.",
+         "Two processes on one host, local files.", "DESIGN.md §4.3 C10"),
+ "C29": ("concmon", "exploration", "backup thread parked between page-file copy and log copy while the writer commits/compacts + free-running backups under a writer; restore + open + dump, prefix oracle",
+         "Held on the explored schedules apart from the listed known finding: every completed backup restored, opened and equalled the source content after j commits with acked-before-backup <= j <= started-before-return.",
+         "A backup call that returns an error is not a completed backup (inconclusive).", "DESIGN.md §4.3 C29"),
+ "C35": ("concmon", "exploration", "lock-shim event monitor: live wait-for-graph cycle detection + per-operation progress watchdog + accumulated lock-order graph over seeded multi-thread stress of all public operations",
+         "Held on the explored runs: no persistent wait-for cycle among lock waiters, every operation completed, no gate-free cycle in the accumulated lock-order graph. 'Forever' is restated as bounded progress.",
+         "Interleavings inside std's lock implementations are not controlled; a watchdog firing without a cycle is inconclusive.", "DESIGN.md §4.3 C35"),
 }
 
 checks = []
